@@ -1116,6 +1116,29 @@ fn build_extra(thorough: bool) -> Vec<Doc> {
         out.push(make_doc(Format::Bcf, "bcf-sites-idx", "sites", bgzip_at(&stream, &[hdr_end]), false));
     }
 
+    // ---- CRLF twins of the text documents whose last column is read by a different path than in the corpus's CRLF
+    //      documents (SAM without optional fields, VCF without samples, BED, FASTQ, second GFF / GTF documents)
+    {
+        let mut names: Vec<String> = ["sam-mapped", "vcf-sites", "bed3", "bed6", "bed12", "gff-resolution", "gtf-repeated-keys"].iter().map(|s| s.to_string()).collect();
+        if let Some(f) = base.iter().find(|d| d.format == Format::Fastq && !d.big && !d.bytes.contains(&b'\r')) {
+            names.push(f.name.clone());
+        }
+        for n in names {
+            let Some(d0) = find(&base, &n) else { continue };
+            if d0.bytes.contains(&b'\r') || find(&base, &format!("{n}-crlf")).is_some() {
+                continue;
+            }
+            let mut t = Vec::with_capacity(d0.bytes.len() + 64);
+            for &c in d0.bytes.iter() {
+                if c == b'\n' {
+                    t.push(b'\r');
+                }
+                t.push(c);
+            }
+            out.push(make_doc(d0.format, format!("{n}-crlf"), &d0.set, t, false));
+        }
+    }
+
     // ---- CSI of a bgzipped SAM (the quick corpus has none)
     if find(&base, "csi-of-samgz-mapped-f2").is_none() {
         let d0 = get("samgz-mapped-f2");
